@@ -32,7 +32,16 @@ func newLexer(filename string, src io.Reader) *lexer {
 	s := &scanner.Scanner{}
 	s.Init(src)
 	s.Filename = filename
-	return &lexer{s: s}
+
+	l := &lexer{s: s}
+	// Scanner errors (unterminated literals, invalid characters) must fail the parse,
+	// by default the scanner only prints them to stderr and carries on.
+	s.Error = func(s *scanner.Scanner, msg string) {
+		if l.err == nil {
+			l.err = fmt.Errorf("%v %v", s.Position, msg)
+		}
+	}
+	return l
 }
 
 func setLexerResult(l yyLexer, file *syntax.File) {
